@@ -490,7 +490,87 @@ def _intenc_rule(chk, prog):
             chk.violation(rule, "marsh.c", r, "%s/%s" % (w, r), rn.loc,
                           "%s writes values up to %d as a single byte but %s treats lead bytes up to %d as single-byte values: "
                           "the value(s) in between are read back as something else" % (w, wv, r, rv))
-    chk.floor(rule, 2, n)
+    # the two-byte form of pushint: 6 + 8 payload bits in two's complement.  Every value the writer sends that way must
+    # lie in the range those bits can hold, or the reader's sign extension gives it another value.
+    wf = tu.funcs["pushint"]
+    pn = wf.params[1]["n"] if len(wf.params) > 1 else "x"
+
+    def cval(e):
+        e = strip_casts(e)
+        if e is None:
+            return None
+        if e.v is not None and e.k in ("int", "lit", "num"):
+            return e.v
+        if e.v is not None and not e.kids:
+            return e.v
+        if e.k == "un" and e.op == "-":
+            v = cval(e.kids[0])
+            return None if v is None else -v
+        if e.k == "bin" and e.op in ("<<", "+", "-", "*"):
+            a, b = cval(e.kids[0]), cval(e.kids[1])
+            if a is None or b is None:
+                return None
+            return {"<<": a << b, "+": a + b, "-": a - b, "*": a * b}[e.op]
+        if e.k == "paren" and e.kids:
+            return cval(e.kids[0])
+        return None
+    masks = [strip_casts(y.kids[1]).v for x in wf.nodes if x.k == "bin" and x.op == "|" for y in x.walk()
+             if y.k == "bin" and y.op == "&" and any(z.k == "bin" and z.op == ">>" for z in y.kids[0].walk()) and strip_casts(y.kids[1]).v is not None]
+    two = None
+    for x in sorted((q for q in wf.nodes if q.k == "if"), key=lambda q: (q.ln, q.id)):
+        atoms = [y for y in x.kids[0].walk() if y.k == "bin" and y.op in ("<", "<=", ">", ">=") and is_ref(strip_casts(y.kids[0])) and strip_casts(y.kids[0]).name == pn]
+        hi = [y for y in atoms if y.op in ("<", "<=")]
+        lo = [y for y in atoms if y.op in (">", ">=")]
+        if hi and lo and cval(lo[0].kids[1]) is not None and cval(lo[0].kids[1]) < 0:
+            two = (hi[0], lo[0])
+    if not masks or two is None:
+        raise AnalysisBroken("pushint: two-byte form not recognised")
+    bits = bin(masks[0]).count("1") + 8
+    hi, lo = two
+    hv = cval(hi.kids[1]) - (1 if hi.op == "<" else 0)
+    lv = cval(lo.kids[1]) + (1 if lo.op == ">" else 0)
+    n += 1
+    chk.instance(rule)
+    if hv <= (1 << (bits - 1)) - 1 and lv >= -(1 << (bits - 1)):
+        chk.ok(rule, "pushint sends %d..%d in the two-byte form, which holds %d bits" % (lv, hv, bits))
+    else:
+        chk.violation(rule, "marsh.c", "pushint", "two-byte-range", hi.loc,
+                      "pushint writes values %d..%d in its two-byte form, but that form carries %d payload bits (mask %#x plus one byte), "
+                      "i.e. %d..%d: a value outside comes back from readint's sign extension as a different number - and this codec "
+                      "also writes every length prefix" % (lv, hv, bits, masks[0], -(1 << (bits - 1)), (1 << (bits - 1)) - 1))
+    chk.floor(rule, 3, n)
+
+
+def _fiberargs_rule(chk, prog):
+    """A suspended fiber's stack has one more live region than its frames: data[stackstart .. stacktop), the values
+    already pushed for a call the top frame has not made yet (a fiber stopped by a breakpoint on the call instruction).
+    The writer sends stackstart and stacktop; unless both sides also transfer the values in between, the copy makes
+    that call with nils."""
+    rule = "C09-FIBERARGS"
+    chk.rule(rule, "marshal_one_fiber and unmarshal_one_fiber both transfer the stack values between stackstart and stacktop")
+    tu = prog.tus["marsh.c"]
+    for name, xfer in (("marshal_one_fiber", "marshal_one"), ("unmarshal_one_fiber", "unmarshal_one")):
+        fn = tu.funcs.get(name)
+        if fn is None:
+            raise AnalysisBroken("%s not found" % name)
+        chk.analysed(fn)
+        chk.instance(rule)
+        found = None
+        for x in fn.nodes:
+            if x.k != "for":
+                continue
+            head = [k for k in x.kids[:-1]]
+            txt = " ".join(k.text() for k in head if k is not None)
+            if "stackstart" in txt and "stacktop" in txt and "JANET_FRAME_SIZE" not in txt and " - " not in txt \
+                    and any(c.k == "call" and c.callee == xfer for c in x.kids[-1].walk()):
+                found = x
+        if found is not None:
+            chk.ok(rule, "%s: `%s` transfers the pending call arguments" % (name, found.text()[:60].replace("\n", " ")))
+        else:
+            chk.violation(rule, "marsh.c", name, "pending-args", fn.loc,
+                          "%s has no loop from stackstart to stacktop that passes the stack values to %s: the arguments a suspended "
+                          "fiber has already pushed for its next call are not part of the image and the copy calls with nil" % (name, xfer))
+    chk.floor(rule, 2)
 
 
 def _lookup_rule(chk, prog):
@@ -584,6 +664,7 @@ def run(chk):
     _opmask_rule(chk, prog)
     _bitsetword_rule(chk, prog)
     _pegopmask_rule(chk, prog)
+    _fiberargs_rule(chk, prog)
 
 
 def _asmrange_rule(chk, prog):
